@@ -1285,13 +1285,13 @@ class RebaseInheritingObject(
             default_base = None
 
         removed_bases = {b.name for b in self.removed_bases}
-        existing_bases = set()
 
-        for b in bases:
-            if b.get_name(schema) in removed_bases:
-                bases.remove(b)
-            else:
-                existing_bases.add(b.get_name(schema))
+        # (do not remove from the list being iterated: that skips the
+        # element following each removed one)
+        bases = [
+            b for b in bases if b.get_name(schema) not in removed_bases
+        ]
+        existing_bases = {b.get_name(schema) for b in bases}
 
         index = {b.get_name(schema): i for i, b in enumerate(bases)}
 
